@@ -897,6 +897,7 @@ func (s *Sim) deliver(q *rescan) {
 		}
 		if subs == 0 {
 			rs.orphan = true
+			rs.orphanHint = true
 			r.Count("probe_orphan_details")
 		}
 	}
